@@ -50,7 +50,8 @@ class Universe(object):
         paths = [b"p:a|", b"p:b|", b"p:c|", b"p:d|"]
         if p.get("long", 0) and rng.random() < p["long"]:
             for _ in range(rng.choice([1, 2])):
-                paths.append(long_stem(rng, b"p:", rng.choice(SPECIAL_LENS), rng.choice(["ascii", "bytes"])))
+                paths.append(long_stem(rng, b"p:", rng.choice(p.get("lens") or SPECIAL_LENS),
+                                       rng.choice(["ascii", "bytes"])))
         if p.get("prefixy", 0) and rng.random() < p["prefixy"]:
             paths += [b"p:a", b"p:a\x00|", b"p:a{|", b"p:a}|"]      # byte-prefixes around '|'
             paths = [x if x.endswith(b"|") else x + b"b|" for x in paths]
@@ -169,6 +170,7 @@ class Driver(object):
         self.just_created = False
         self.just_reopened = False
         self.just_ruled = None
+        self.just_nested = None
         self.fresh_n = 0
 
     def family_ok(self, lrus):
@@ -197,6 +199,21 @@ class Driver(object):
                 self.note(op)
                 return op
         self.just_ruled = None
+        # pages beside a nested webentity prefix just declared: its siblings (same trie parent) are
+        # inserted AFTER it, on both sides in byte order
+        if self.just_nested is not None and rng.random() < self.profile.get("nestsib", 0.0):
+            from impl import stems_of
+            st = stems_of(self.just_nested)
+            self.just_nested = None
+            par = b"".join(st[:-1])
+            ls = [par + x for x in rng.sample(u.paths[:4], 3) if x != st[-1]]
+            if rng.random() < 0.5:
+                ls.append(par + st[-1] + rng.choice(u.paths[:3]))
+            if ls and self.family_ok(ls):
+                op = {"op": "AddPages", "ls": ls, "cr": rng.random() < 0.5}
+                self.note(op)
+                return op
+        self.just_nested = None
         # persistence pattern: close and reopen right after a request that issued webentity ids,
         # then create again (what a counter kept only in RAM breaks)
         if self.backend == "file" and self.weights.get("Reopen", 0) > 0:
@@ -252,6 +269,11 @@ class Driver(object):
 
     def note(self, op):
         n = op["op"]
+        if n in ("CreateWe", "AddPrefix"):
+            from impl import stems_of
+            p = op["ps"][0] if n == "CreateWe" else op.get("p", b"")
+            if len(stems_of(p)) >= 4:
+                self.just_nested = p
         if n == "AddRule":
             self.ram[op["anchor"]] = op["rule"]
         elif n == "RemoveRule":
@@ -326,7 +348,10 @@ class Driver(object):
                     y = rng.choice(first)
                     if y not in (hub, x):
                         data.append((y, [rng.choice(known)]))
-                return {"op": name, "data": data}
+                op = {"op": name, "data": data}
+                if rng.random() < self.profile.get("yieldfreq", 0.3):
+                    op["yf"] = rng.choice([1, 2, 3])
+                return op
             nsrc = rng.choice([1, 2, 2, 3, 4])
             pending = []
             for _ in range(nsrc):
@@ -354,7 +379,10 @@ class Driver(object):
                 if rng.random() < 0.1:
                     tg.append(s)
                 data.append((s, tg))
-            return {"op": name, "data": data}
+            op = {"op": name, "data": data}
+            if rng.random() < self.profile.get("yieldfreq", 0.3):
+                op["yf"] = rng.choice([1, 2, 3, 5])      # the public yield_frequency argument (default 50)
+            return op
         if name == "CreateWe":
             p = u.host_prefix() if rng.random() < 0.6 else u.prefix()
             ps = [p]
